@@ -18,17 +18,20 @@ Lemma corr_ps2_closed :
           (fun s => s <? ext_ps2_states) (all_below ext_ps2_states) syn_of_ext (fun _ _ => false) = true.
 Proof. vm_compute. reflexivity. Qed.
 
-Theorem corr_ps2_bits : forall ops : list bit_op,
-  outs (ps2_machine syn_ps2) (Ps2Decoder_mk 0 0) ops = outs (ps2_machine ext_ps2) 0 ops
-  /\ outs (ps2_machine syn_ps2) (Ps2Decoder_mk 0 0) ops <> Panic.
+Theorem corr_ps2_bits : forall s0, ps_init syn_ps2 = Ret s0 -> forall ops : list bit_op,
+  outs (ps2_machine syn_ps2) s0 ops = outs (ps2_machine ext_ps2) 0 ops
+  /\ outs (ps2_machine syn_ps2) s0 ops <> Panic.
 Proof.
-  intros ops.
+  intros s0 Hi ops.
   apply (bisim_outs (ps2_machine syn_ps2) (ps2_machine ext_ps2) Ps2Decoder_eqb psres_eqb all_ops
                     (fun s => s <? ext_ps2_states) (all_below ext_ps2_states)
                     (fun s H => all_below_complete _ s (proj1 (N.ltb_lt _ _) H)) syn_of_ext (fun _ _ => false) (fun _ _ => eq_refl) corr_ps2_closed).
   - apply Forall_forall. intros op _. apply all_ops_complete.
   - reflexivity.
-  - reflexivity.
+  - (* state 0 of the table is the initial state: the first entry of the rebuilt table *)
+    change (syn_of_ext 0) with (nth 0 syn_of_ext_tbl Panic).
+    assert (E : nth 0 syn_of_ext_tbl Panic = ps_init syn_ps2) by (vm_compute; reflexivity).
+    rewrite E. exact Hi.
 Qed.
 
 Eval vm_compute in ("traces_validated_against_impl"%string, 3 * ext_ps2_states).
